@@ -198,6 +198,8 @@ Proof.
   apply error_false.
 Qed.
 
+End Prims.
+
 (* reader-independent description of decode_hex_escape *)
 Definition dhe (s : st) : res (N * st) :=
   match rest s with
@@ -209,9 +211,9 @@ Definition dhe (s : st) : res (N * st) :=
   | _ => Err EofWhileParsingString (off s + length (rest s))
   end.
 
-Lemma decode_hex_escape_dhe (s : st) : decode_hex_escape E s = dhe s.
+Lemma decode_hex_escape_dhe rk0 cf0 (s : st) : decode_hex_escape (mkEnv rk0 TEof cf0) s = dhe s.
 Proof.
-  destruct s as [l o p dp]. unfold decode_hex_escape, dhe, is_io, E. cbn [rk rest off depth].
+  destruct s as [l o p dp]. unfold decode_hex_escape, dhe, is_io. cbn [rk rest off depth].
   destruct rk0.
   - (* slice *)
     destruct l as [|a [|b [|c [|d r]]]]; unfold advance; cbn [rest off depth length skipn];
@@ -231,10 +233,9 @@ Proof.
     + rewrite error_false. f_equal. lia.
 Qed.
 
-End Prims.
 
 Lemma dhe_post (s : st) :
-  post (fun x => fst x <= 65535 /\ pk (snd x) = false /\ length (rest (snd x)) + 4 = length (rest s)) (dhe s).
+  post (fun x => fst x <= 65535 /\ pk (snd x) = false /\ (length (rest (snd x)) + 4 = length (rest s))%nat) (dhe s).
 Proof.
   destruct s as [l o p dp]. unfold dhe. cbn [rest off depth].
   destruct l as [|a [|b [|c [|d r]]]]; cbn [post]; auto.
